@@ -1070,16 +1070,44 @@ def record_bindings(fn, find_method=None, find_function=None, record_classes=Non
     out = {}
     record_classes = record_classes or {}
     sa = single_assignments(fn)
+    def unstar(args):
+        """R(*[E(b) for b in (a1, a2)]) reads R(E(a1), E(a2)); None when a starred argument is anything else"""
+        out_ = []
+        for a in args:
+            if not isinstance(a, ast.Starred):
+                out_.append(a)
+                continue
+            c = a.value
+            if isinstance(c, (ast.ListComp, ast.GeneratorExp)) and len(c.generators) == 1 and not c.generators[0].ifs \
+                    and isinstance(c.generators[0].target, ast.Name) and isinstance(c.generators[0].iter, (ast.Tuple, ast.List)):
+                out_ += [substitute(c.elt, {c.generators[0].target.id: x}) for x in c.generators[0].iter.elts]
+            elif isinstance(c, (ast.Tuple, ast.List)):
+                out_ += list(c.elts)
+            else:
+                return None
+        return out_
     for name, v in sa.items():
         val = v
+        via = None
         if isinstance(v, ast.Call) and not (isinstance(v.func, ast.Name) and v.func.id in record_classes):
             val = straightline_value(v, find_method, find_function)
-        if not (isinstance(val, ast.Call) and isinstance(val.func, ast.Name) and val.func.id in record_classes) \
-                or any(isinstance(a, ast.Starred) for a in val.args):
+            via = _helper_of_call(v, find_method, find_function)
+        if not (isinstance(val, ast.Call) and isinstance(val.func, ast.Name)):
             continue
-        rc = record_classes[val.func.id]
+        rname = val.func.id
+        if rname == "cls" and via is not None and isinstance(getattr(via, "_parent", None), ast.ClassDef) \
+                and via._parent.name in record_classes:
+            rname = via._parent.name        # `cls(…)` in a classmethod of the record class itself
+        if rname not in record_classes:
+            continue
+        args_ = unstar(val.args)
+        if args_ is None:
+            continue
+        rc = record_classes[rname]
+        if not isinstance(rc, ast.ClassDef):
+            continue
         fields = [b.target.id for b in rc.body if isinstance(b, ast.AnnAssign) and isinstance(b.target, ast.Name)]
-        m = dict(zip(fields, val.args))
+        m = dict(zip(fields, args_))
         m.update({k.arg: k.value for k in val.keywords if k.arg})
         if set(m) == set(fields):
             out[name] = (rc, m)
@@ -1245,6 +1273,13 @@ def _helper_of_call(c, find_method, find_function):
         return find_method(c.func.attr)
     if isinstance(c.func, ast.Name) and find_function is not None:
         return find_function(c.func.id)
+    if isinstance(c.func, ast.Attribute) and isinstance(c.func.value, ast.Name) and find_function is not None \
+            and c.func.value.id[:1].isupper():
+        # `Record.of(x)`: a class / static method of a small class of the package, for finders that know dotted names
+        try:
+            return find_function(f"{c.func.value.id}.{c.func.attr}")
+        except Exception:
+            return None
     return None
 
 
